@@ -337,3 +337,17 @@ func LoadTape(path string) ([]int, error) {
 	}
 	return v.Replay.Seq, nil
 }
+
+// ExitCode is set by a harness' TestCheck and used by Main.
+var ExitCode int
+
+// Main is the TestMain of every harness: exit 0 held, 1 violation, 2 internal.
+func Main(run func() int) {
+	code := run()
+	if ExitCode != 0 {
+		code = ExitCode
+	} else if code != 0 {
+		code = 2
+	}
+	os.Exit(code)
+}
